@@ -60,6 +60,9 @@ def std_datasets():
     X = rng.rand(4, 2)
     Y = np.array([[0.0, 1.0], [1.0, 0.0], [0.4, 0.4], [0.9, 0.9]])
     register_dataset("VVD2tiny", X, Y)
+    # twenty designs: ids beyond the 8 slots of a small hash set, so that late-run subsets iterate in an order that is not the sorted one
+    rng2 = np.random.RandomState(777)
+    register_dataset("VVD2c", rng2.rand(20, 2), rng2.randn(20, 2))
 
 
 def make_order(spec):
